@@ -253,6 +253,93 @@ theorem C07_independent_of_history (h₁ h₂ : List Inv) (inv : Inv)
   rw [Nat.zero_add] at g1 g2
   rw [(C07_step_exact _ _ inv g1).2 n1, (C07_step_exact _ _ inv g2).2 n2, hacc]
 
+/-! ### Re-supplied code objects and the file-module cache -/
+
+/-- forget which code object every invocation re-supplies -/
+def freshCode (inv : Inv) : Inv := { inv with same := none }
+
+/-- **Re-supplying a code object is invisible.**  For every state and invocation, running a
+    `*compiler.Code` object the VM has seen before (`same := some j`) leaves exactly the state
+    and outcome that a newly compiled, identical code object leaves: `resetForNewCode` forgets
+    `loadedCode`, so no transition of the model reads `same`.  (The harness re-runs the very
+    same Go object and compares outcome, sp, fp and the stack headroom with this model.) -/
+theorem C07_same_code_irrelevant (s : St) (k : Nat) (inv : Inv) :
+    invoke s k (freshCode inv) = invoke s k inv := rfl
+
+/-- the same for whole histories of any length -/
+theorem C07_same_code_irrelevant_history (s : St) (k : Nat) (h : List Inv) :
+    runFrom s k (h.map freshCode) = runFrom s k h := by
+  induction h generalizing s k with
+  | nil => rfl
+  | cons inv rest ih =>
+    simp only [List.map_cons, runFrom, C07_same_code_irrelevant]
+    rw [ih]
+
+/-- **A run that ends inside a module's top-level code caches nothing.**  From every state a
+    history can leave behind: if invocation `k` ends (runtime error, recovered panic, frame
+    overflow, cancellation of its own context) while the top-level code of the imported file
+    module is executing, the module is NOT in the VM's import cache afterwards, the outcome is
+    the one the Spec demands, and the module cache has the size it had when the body started. -/
+theorem C07_aborted_import_caches_nothing (s : St) (k : Nat) (inv : Inv) (g : Good s k)
+    (hi : importFails s k inv = false) (hm : modEnds (bodyState s k inv) inv = true) :
+    (invoke s k inv).1.fmod = false ∧ (invoke s k inv).2 = specOutcome inv s.acc ∧
+    modCount (invoke s k inv).1 = modCount (bodyState s k inv) := by
+  have hnot : ¬(inv.imp = true ∧ (bodyState s k inv).mods = false) := by
+    intro h; unfold importFails at hi; simp [h.1, h.2] at hi
+  have hcore : core (bodyState s k inv) k inv = modEnd (bodyState s k inv) k inv := by
+    unfold core; simp only [hnot, hm, ↓reduceIte]
+  have hf : (bodyState s k inv).fmod = false := by
+    unfold modEnds modRuns at hm
+    cases h : (bodyState s k inv).fmod <;> simp_all
+  have hs : staleFires s k inv = false := by unfold staleFires; rw [hm]; simp
+  refine ⟨?_, ?_, ?_⟩
+  · rw [invoke_eq s k inv g, hcore]
+    show (modEnd (bodyState s k inv) k inv).1.fmod = false
+    unfold modEnd
+    simp only
+    cases ownCancel inv
+    · exact hf
+    · simp only [↓reduceIte]
+      rw [(cancel_sameCore' (bodyState s k inv) k).1]; exact hf
+  · rw [step_outcome s k inv g, hi, hs]; rfl
+  · rw [invoke_eq s k inv g, hcore]
+    unfold modCount modEnd
+    simp only
+    cases ownCancel inv
+    · rfl
+    · simp only [↓reduceIte]
+      rw [(cancel_sameCore' (bodyState s k inv) k).1, (cancel_sameCore' (bodyState s k inv) k).2]
+
+/-- **The module cache never decides an outcome.**  Whether the file module is cached
+    (`fmod`) when an invocation starts changes where a run can end, not what it returns: from
+    every state a history can leave behind, flipping the cache gives the same outcome unless
+    the invocation is harmed (stale watcher / import of a global module after a reset) in one
+    of the two situations. -/
+theorem C07_module_cache_irrelevant (s : St) (k : Nat) (inv : Inv) (b : Bool) (g : Good s k)
+    (n1 : harms s k inv = false) (n2 : harms { s with fmod := b } k inv = false) :
+    (invoke { s with fmod := b } k inv).2 = (invoke s k inv).2 := by
+  have g' : Good { s with fmod := b } k := ⟨g.quiet, g.fp0, g.early⟩
+  rw [(C07_step_exact _ _ inv g).2 n1, (C07_step_exact _ _ inv g').2 n2]
+
+/-- non-vacuity: seven invocations on one VM that import the file module; three of them end
+    inside the module's top-level code (error, own cancellation, panic), later ones import it
+    again through Call / Run / a re-supplied code object; no guard is violated, every
+    outcome is the Spec's, and the module is cached only by the runs that completed it -/
+def sampleModule : List Inv :=
+  [ { kind := .call, beh := .err, depth := 1, pend := 0, v := 5, bump := 1, bg := false, imp := false, pre := [], during := [], fimp := true, mfail := true },
+    { kind := .call, beh := .selfCancel, depth := 0, pend := 0, v := 6, bump := 1, bg := false, imp := false, pre := [], during := [], fimp := true, mfail := true },
+    { kind := .run, beh := .panic, depth := 2, pend := 1, v := 7, bump := 1, bg := false, imp := false, pre := [1], during := [], fimp := true, mfail := true },
+    { kind := .call, beh := .normal, depth := 0, pend := 0, v := 8, bump := 1, bg := false, imp := false, pre := [], during := [], fimp := true, mfail := true },
+    { kind := .run, beh := .err, depth := 0, pend := 2, v := 9, bump := 1, bg := false, imp := false, pre := [], during := [], fimp := true, mfail := true },
+    { kind := .runCode, beh := .normal, depth := 0, pend := 0, v := 10, bump := 0, bg := true, imp := false, pre := [], during := [], fimp := true },
+    { kind := .runCode, beh := .overflow, depth := 0, pend := 0, v := 10, bump := 0, bg := true, imp := false, pre := [], during := [], fimp := true, mfail := true, same := some 5 } ]
+
+example : harmed sampleModule = false := by decide
+example : (pairs sampleModule).map (·.1) =
+    [.errRuntime, .errCanceled, .errPanic, .ok 1008, .errRuntime, .ok 2010, .errOverflow] := by decide
+example : (run sampleModule).map (·.1.fmod) = [false, false, false, true, true, true, false] := by decide
+example : modEnds (bodyState (fresh 0) 0 sampleModule.head!) sampleModule.head! = true := by decide
+
 /-! ### Depth -/
 
 theorem frameStep_leafSig (halt own : Bool) (b : Beh) (v acc : Nat) :
